@@ -815,6 +815,10 @@ def run(ctx):
                     why = "reassembly buffer: its header's payload length is rewritten to size() - 16 after every growth"
                 res.check(ok, "C03-R4", "Packet-from-bytes:%s" % f.name.split("::")[-1], c.get("loc"), why,
                           "a Packet is constructed from raw bytes in %s without isValidPacket on the same pointer and size" % f.name)
+    # what the validator judged is what the object holds: T(data, size) keeps exactly `size` bytes (C04-R6, shared) — otherwise the bound
+    # `length field <= size - K` was established for a size the stored payload does not have
+    from rules.c04 import rule_typed_ctor_keeps_size
+    rule_typed_ctor_keeps_size(fb, res, "C03-R2b")
     res.floor("C03-R1", 14)
     res.floor("C03-R2a", 7)
     res.floor("C03-R2b", 8)
